@@ -120,6 +120,8 @@ PTR_BYTES = {"uint8": 1, "uint16": 2, "uint32": 4, "uint64": 8}
 CURATED = [
     ("bits-roll", [["a", U16, 3], ["b", U16, 9], ["c", U16, 4], ["d", U8, None], ["e", U32, 8], ["f", U32, 24]]),
     ("bits-switch", [["a", U8, 4], ["b", U16, 4], ["c", U8, 4], ["d", U8, 4]]),
+    ("bits-switch-then-block", [["a", U16, 4], ["b", U8, 4], ["c", U8, 4], ["d", U32, None]]),
+    ("bits-exhaust-then-block", [["a", U8, 4], ["b", U8, 4], ["c", U8, 4], ["d", U16, None], ["e", U8, 8], ["f", U8, 1], ["g", U64, None]]),
     ("bits-full-then-same", [["a", U8, 8], ["b", U8, 1], ["c", U32, None]]),
     ("bits-enum-mixed", [["a", E16, 4], ["b", E16, 12], ["c", F8, 2], ["d", F8, 6]]),
     ("bits-then-struct", [["a", U16, 5], ["s", INNER, None], ["b", U16, 5]]),
